@@ -478,7 +478,7 @@ class SecopClient(ProxyClient):
                         ident = None
                     if action in UPDATE_MESSAGES:
                         module_param = self.internal.get(ident, None)
-                        if module_param is None and ':' not in (ident or ''):
+                        if module_param is None and ident and ':' not in ident:
                             # allow missing ':value'/':target'
                             if action == WRITEREPLY:
                                 module_param = self.internal.get(f'{ident}:target', None)
